@@ -11,9 +11,11 @@ correspondence : the *checked-execution* (`Ck`) Lean models of 24 kernels (gauss
                  block_jacobi_indexed, extract_subblocks, overlapping_schwarz_csr with `gemm` in accumulate mode; rs_cf_splitting_pass2, cr_helper;
                  approx_ideal_restriction_pass1; satisfy_constraints_helper, calc_BtB, incomplete_mat_mult_bsr with the two remaining `gemm` modes;
                  apply_householders, householder_hornerscheme, apply_givens; floyd_warshall, connected_components, most_interior_nodes)
-                 and, through the `ext_c17r4_*` ops of Driver/ExtE32.lean, of 9 more (vertex_coloring_mis, maximal_independent_set_parallel,
+                 and, through the `ext_c17r4_*` ops of Driver/ExtE32.lean, of 13 more (vertex_coloring_mis, maximal_independent_set_parallel,
                  vertex_coloring_jones_plassmann, vertex_coloring_LDF with vertex_coloring_first_fit, maximal_independent_set_k_parallel with
-                 csr_propagate_max; pairwise_aggregation with its multimap; cljp_naive_splitting and fit_candidates on IEEE doubles, bit for bit; plus
+                 csr_propagate_max; pairwise_aggregation with its multimap; cljp_naive_splitting, fit_candidates, pinv_array (svd_jacobi, transpose, gemm),
+                 evolution_strength_helper (svd_solve), approx_ideal_restriction_pass2 and its block version (QR / least_squares / dense_GMRES) on IEEE doubles,
+                 bit for bit; plus
                  bellman_ford_balanced through the validated model of `ext_c18_bfbal`)
                  are run on exact dyadic inputs (the two interpolation passes on IEEE doubles, bit for bit); their `.val` must
                  equal the output of the rebuilt kernel exactly and their `ok` flag must be true (the flag is what the
@@ -60,8 +62,8 @@ META = {
             '(kernel, dtype signature, argument bytes)',
     'search_only': ['no undefined integer / shift / pointer operation: UBSan + _GLIBCXX_ASSERTIONS on the rebuilt kernels (not modelled in Lean)',
                     'releases what it allocates: live-heap-bytes delta around every traced call (ASan allocator statistics)',
-                    'bounds safety of the 5 kernels without a checked model (approx_ideal_restriction_pass2 and its block version: std::set + dense QR / GMRES; '
-                    'evolution_strength_helper, pinv_array: svd_jacobi / svd_solve; center_nodes): ASan on generated inputs',
+                    'bounds safety of the one kernel without a checked model (center_nodes: an in-range predecessor after a centre move needs Floyd-Warshall reachability inside '
+                    'the cluster; a fault-detecting model exists in Model/ExtC12Bal.lean, property C12): ASan on generated inputs',
                     'termination of the kernels with data-dependent loops other than the five with a *_total theorem: CPU-time limit per call',
                     'reads of uninitialised work memory: only through ASan malloc_fill (0xbe) turning garbage indices into wild accesses, and output poisoning',
                     'outputs fully defined: poison patterns in output buffers (contract table CONTRACT in this file)'],
@@ -69,7 +71,7 @@ META = {
                 'maximal_independent_set_k_parallel with max_iters = -1, cljp_naive_splitting): the theorems are "a run that returns was in range" for EVERY fuel (plus '
                 '"returns within max_iters passes" for max_iters >= 0); termination of these loops is proved for the function models of C18 (coloringJP_total, coloringLDF_total, '
                 'misK_total, mis_parallel_total), not for the Ck transcriptions, and for CLJP only searched (CPU limit + the driver fuel n+1: `nonterm` would be a correspondence failure); '
-                'vertex_coloring_mis, pairwise_aggregation, fit_candidates include termination',
+                'vertex_coloring_mis, pairwise_aggregation, fit_candidates, pinv_array and evolution_strength_helper (svd_jacobi sweeps) include termination',
                 'bellman_ford_balanced: the no-fault theorems are about the validated executable model Bal.kernel / Bal.wrapper (Option-style, not the Ck monad); termination within n*n '
                 'sweeps is not proved (the kernel throws)',
                 'rs_cf_splitting: the whole-kernel theorem rs_cf_splitting_safe (checked model RS.runCk, op ext_rs_whole: all initialisation loops, main loop, '
@@ -91,6 +93,10 @@ META = {
                     'round-4 models: vertex_coloring_jones_plassmann / _LDF and cljp_naive_splitting(colorflag = 1) need n > 0 (for n = 0 the kernels dereference max_element of an empty '
                     'range: reported finding; the models fault there, control inputs); vertex_coloring_first_fit: K >= 0, no entry of x above K and the nodes coloured K separated (what a '
                     'parallel-MIS pass establishes on ANY pattern: parallel_coloring_round_safe); fit_candidates: Ax holds K1*K2 values per stored index, B n_row*K1*K2, R n_col*K2^2; '
+                    'approx_ideal_restriction_pass2: Rp is the output of the first pass on the same C / splitting / Cpts / distance (RpOK, proved for the pass-1 model: '
+                    'approx_ideal_restriction_pass1_establishes_RpOK), Rj and Rx hold Rp[|Cpts|] entries (block version: Ax, Rx hold blocksize^2 values per entry), maxiter >= 0; '
+                    'pinv_array: AA holds m*n*n values; evolution_strength_helper: Sx holds Sp[nrows] values, x nrows*NullDim, y NullDim*nrows, b nrows*BDBCols with '
+                    'BDBCols >= NullDim(NullDim+1)/2; the region split of `work` in svd_solve (U, V, x as three arrays) is stricter than the C++ allocation; '
                     'bellman_ford_balanced: positive weights on a grid coarser than 2*tol, arrays as the wrapper / the Lloyd loop initialise them (Bal.Inv); the correspondence inputs of '
                     'maximal_independent_set_k_parallel keep the weights above -1 (C18 finding: otherwise no termination with max_iters = -1, kept as a `nonterm` control)',
                     'scalar arithmetic is abstract in the theorems; overflow of 32-bit index arithmetic is left to UBSan on sizes n <= 40'],
@@ -2039,6 +2045,58 @@ def ext4_model_items(rng, amg_core, add, n, ip, ix, dx):
     amg_core.cljp_naive_splitting(n, ip, ix, tp_, tj_, spl, cf)
     add(f'ext_c17r4_cljp_naive_splitting {gh} {enc_ints(tp_)} {enc_ints(tj_)} {enc_ints(np.full(n, -7))} {cf} {fbits(rnd)}', enc_ints(spl) + ';ok',
         'cljp_naive_splitting', nt)
+    # air.h: approx_ideal_restriction_pass2 (std::set neighbourhoods, local least squares by Householder QR or dense GMRES) on IEEE doubles, bit for bit:
+    # Rp from the first pass on the same C / splitting / distance, A any pattern (missing entries give zeros in the local matrix), both solvers
+    spl_a = (rng.random(n) < float(rng.choice([0.3, 0.5, 0.7]))).astype(np.int32)
+    cpts_a = np.flatnonzero(spl_a == 1).astype(np.int32)
+    dist_a = int(rng.integers(1, 3))
+    ccp, ccj, _, _ = _exact_csr(rng, n)
+    Rp_a = np.full(len(cpts_a) + 1, -7, dtype=np.int32)
+    amg_core.approx_ideal_restriction_pass1(Rp_a, ccp, ccj, cpts_a, spl_a, dist_a)
+    nnz_a = int(Rp_a[-1])
+    ug, mi_a, pc_a = int(rng.integers(2)), int(rng.integers(0, 5)), int(rng.integers(2))
+    axa = dx + 0.5 * (rng.random(len(dx)) < 0.5)
+    Rj0, Rx0 = np.full(nnz_a, -7, dtype=np.int32), np.full(nnz_a, -7.0)
+    Rj1, Rx1 = Rj0.copy(), Rx0.copy()
+    amg_core.approx_ideal_restriction_pass2(Rp_a, Rj1, Rx1, ip, ix, axa, ccp, ccj, np.ones(len(ccj)), cpts_a, spl_a, dist_a, ug, mi_a, pc_a)
+    add(f'ext_c17r4_approx_ideal_restriction_pass2 {enc_ints(Rp_a)} {enc_ints(Rj0)} {fbits(Rx0)} {n} {enc_ints(ip)} {enc_ints(ix)} {fbits(axa)} {enc_ints(ccp)} '
+        f'{enc_ints(ccj)} {enc_ints(cpts_a)} {enc_ints(spl_a)} {dist_a} {ug} {mi_a} {pc_a}', f'{enc_ints(Rj1)};{fbits(Rx1)};ok', 'approx_ideal_restriction_pass2',
+        nnz_a > len(cpts_a))
+    # air.h: the block version on the same neighbourhoods, block sizes 1..3, Rx pre-filled with zeros (the kernel writes only the diagonal of the identity block)
+    bsa = int(rng.choice([1, 2, 2, 3]))
+    axb = rng.integers(-3, 4, size=len(ix) * bsa * bsa).astype(np.float64) + 0.5 * (rng.random(len(ix) * bsa * bsa) < 0.3)
+    Rjb0, Rxb0 = np.full(nnz_a, -7, dtype=np.int32), np.zeros(nnz_a * bsa * bsa)
+    Rjb1, Rxb1 = Rjb0.copy(), Rxb0.copy()
+    ugb, mib, pcb = int(rng.integers(2)), int(rng.integers(0, 5)), int(rng.integers(2))
+    amg_core.block_approx_ideal_restriction_pass2(Rp_a, Rjb1, Rxb1, ip, ix, axb, ccp, ccj, np.ones(len(ccj)), cpts_a, spl_a, bsa, dist_a, ugb, mib, pcb)
+    add(f'ext_c17r4_block_approx_ideal_restriction_pass2 {enc_ints(Rp_a)} {enc_ints(Rjb0)} {fbits(Rxb0)} {n} {enc_ints(ip)} {enc_ints(ix)} {fbits(axb)} {enc_ints(ccp)} '
+        f'{enc_ints(ccj)} {enc_ints(cpts_a)} {enc_ints(spl_a)} {bsa} {dist_a} {ugb} {mib} {pcb}', f'{enc_ints(Rjb1)};{fbits(Rxb1)};ok',
+        'block_approx_ideal_restriction_pass2', nnz_a > len(cpts_a))
+    # evolution_strength.h: evolution_strength_helper (svd_solve, gemm, the packed BDB offsets) on IEEE doubles, bit for bit: any pattern (rows shorter
+    # than NullDim take the short branch), NullDim 1..3, BDBCols = NullDim(NullDim+1)/2, small integer data
+    ND = int(rng.integers(1, 4))
+    cols = ND * (ND + 1) // 2
+    Sx0 = rng.integers(-3, 4, size=len(ix)).astype(np.float64) + (rng.random(len(ix)) < 0.3) * 0.5
+    Bm, DBm, BDBm = (rng.integers(-2, 3, size=n * ND).astype(np.float64), rng.integers(-2, 3, size=ND * n).astype(np.float64),
+                     rng.integers(-2, 3, size=n * cols).astype(np.float64))
+    tole = float(rng.choice([1e-10, 2.220446049250313e-16 * 10]))
+    Sx1 = Sx0.copy()
+    amg_core.evolution_strength_helper(Sx1, ip, ix, n, Bm, DBm, BDBm, cols, ND, tole)
+    add(f'ext_c17r4_evolution_strength_helper {fbits(Sx0)} {enc_ints(ip)} {enc_ints(ix)} {n} {fbits(Bm)} {fbits(DBm)} {fbits(BDBm)} {cols} {ND} {fbits(np.array([tole]))}',
+        fbits(Sx1) + ';ok', 'evolution_strength_helper', nt)
+    # linalg.h: pinv_array (svd_jacobi, transpose, gemm) on IEEE doubles, bit for bit: block sizes 1..5 (all branches of `transpose`), singular and
+    # zero blocks, both storage orders
+    nblk, bsz = int(rng.integers(1, 4)), int(rng.choice([1, 2, 2, 3, 3, 4, 5]))
+    AA0 = rng.integers(-3, 4, size=nblk * bsz * bsz).astype(np.float64)
+    u = rng.random()
+    if u < 0.2:
+        AA0[:bsz * bsz] = 0.0                                                   # a zero block
+    elif u < 0.4 and bsz > 1:
+        AA0.reshape(nblk, bsz, bsz)[0, :, -1] = AA0.reshape(nblk, bsz, bsz)[0, :, 0]   # a singular block
+    trA = str(rng.choice(['T', 'F']))
+    AA1 = AA0.copy()
+    amg_core.pinv_array(AA1, nblk, bsz, trA)
+    add(f'ext_c17r4_pinv_array {nblk} {bsz} {trA} {fbits(AA0)}', fbits(AA1) + ';ok', 'pinv_array', True)
     # smoothed_aggregation.h: fit_candidates (real instantiation, IEEE doubles bit for bit): any CSC pattern of nagg columns over nrow supernodes
     # (empty columns, rows in several columns), K1 dofs per supernode, K2 candidates (rank deficient columns included)
     nagg, K1, K2 = int(rng.integers(1, 5)), int(rng.integers(1, 3)), int(rng.integers(1, 4))
@@ -2362,6 +2420,20 @@ def part_model(ctx, ncases):
         ('ext_c17r3_connected_components 2 0,1,2 1,5 -7,-7', ';fault'),                                   # column index 5: components[5]
         ('ext_c17r3_most_interior_nodes 2 0,1,2 1,0 1,1 0 0,0 0,3 -1,-1', ';fault'),                      # m[1] = 3 indexes c, which has one cluster
         # extension E32 (round 4)
+        # block AIR, 2x2 blocks, C-point 0 with one F neighbour: Rx one value short / Ax one value short (GMRES path) / well formed
+        ('ext_c17r4_block_approx_ideal_restriction_pass2 0,2 -7,-7 0,0,0,0,0,0,0 2 0,1,2 0,1 4607182418800017408,0,0,4607182418800017408,4607182418800017408,0,0,4607182418800017408 0,1,1 1 0 1,0 2 1 0 1 0', ';fault'),
+        ('ext_c17r4_block_approx_ideal_restriction_pass2 0,2 -7,-7 0,0,0,0,0,0,0,0 2 0,1,2 0,1 4607182418800017408,0,0,4607182418800017408,4607182418800017408,0,0 0,1,1 1 0 1,0 2 1 1 1 1', ';fault'),
+        ('ext_c17r4_block_approx_ideal_restriction_pass2 0,2 -7,-7 0,0,0,0,0,0,0,0 2 0,1,2 0,1 4607182418800017408,0,0,4607182418800017408,4607182418800017408,0,0,4607182418800017408 0,1,1 1 0 1,0 2 1 0 1 0', ';ok'),
+        # C-point 0 with one F neighbour: Rp = 0,2; Rj one entry short / Rx one entry short (GMRES path) / well formed
+        ('ext_c17r4_approx_ideal_restriction_pass2 0,2 -7 0,0 2 0,1,2 0,1 4607182418800017408,4607182418800017408 0,1,1 1 0 1,0 1 0 1 0', ';fault'),
+        ('ext_c17r4_approx_ideal_restriction_pass2 0,2 -7,-7 0 2 0,1,2 0,1 4607182418800017408,4607182418800017408 0,1,1 1 0 1,0 1 1 1 1', ';fault'),
+        ('ext_c17r4_approx_ideal_restriction_pass2 0,2 -7,-7 0,0 2 0,1,2 0,1 4607182418800017408,4607182418800017408 0,1,1 1 0 1,0 1 0 1 0', ';ok'),
+        # one row with three entries, NullDim = 2: BDBCols = 2 < 3 walks past the packed row of the last node; Sx one entry short
+        ('ext_c17r4_evolution_strength_helper 4607182418800017408,4607182418800017408,4607182418800017408 0,3,3,3 0,1,2 3 0,0,0,0,0,0 0,0,0,0,0,0 0,0,0,0,0,0 2 2 0', ';fault'),
+        ('ext_c17r4_evolution_strength_helper 4607182418800017408,4607182418800017408,4607182418800017408 0,3,3,3 0,1,2 3 0,0,0,0,0,0 0,0,0,0,0,0 0,0,0,0,0,0,0,0,0 3 2 0', ';ok'),
+        ('ext_c17r4_evolution_strength_helper 4607182418800017408,4607182418800017408 0,3,3,3 0,1,2 3 0,0,0 0,0,0 0,0,0 1 1 0', ';fault'),
+        ('ext_c17r4_pinv_array 2 2 F 0,0,0,0,0,0,0', ';fault'),                                              # AA one entry short of two 2x2 blocks
+        ('ext_c17r4_pinv_array 1 4 T 0,0,0,0,0,0,0,0,0,0,0,0,0,0,0', ';fault'),                              # AA one entry short of a 4x4 block (unrolled transpose)
         ('ext_c17r4_fit_candidates 1 1 2 0,1 0 0,0 0,0 0,0,0 0', ';fault'),                                   # R holds 3 of the K2*K2 = 4 entries of the block column
         ('ext_c17r4_fit_candidates 1 2 1 0,1 0 0 0,0 0 0', ';fault'),                                        # Ax holds one of the K1*K2 = 2 entries of the stored block
         ('ext_c17r4_fit_candidates 1 1 1 0,1 3 0 0 0 0', ';fault'),                                          # Ai = 3: B has one supernode
